@@ -1073,6 +1073,16 @@ def run(ctx):
     rule_A4(ctx)
     rule_A5(ctx)
     rule_A6(ctx)
+    # "one row per distinct tree (same clades and outliers)": the dictionary is keyed by Tree.__eq__ / __hash__
+    # (same rule objects as C03.I1 / I2), whose clade sets come from tree.utils (TS)
+    from ..formula import imported
+    from . import C03
+    from ._treespec import rule_TS
+
+    ctx._own_rules = set(ctx.rule_min)
+    imported(ctx, C03.rule_I1)
+    imported(ctx, C03.rule_I2)
+    imported(ctx, rule_TS, ["tree.utils"])
 
 
 # ----------------------------------------------------------------------------- self-test catalogue
